@@ -75,8 +75,8 @@ RULE = ('trees: depth <= 4, fan-out <= 3, 15 value types, children below any val
         'exact / superset / strict subset / duplicates / conflicting duplicate, shuffled; classes x record_evidence '
         'x completion/verification/final flags x previous versions x the arguments that are only recorded '
         '(institution name, department name with / without institution, performed procedure codes none / [] / several, '
-        'requested procedures none / [] / several); doc_verify: {3 classes} x is_verified x observer name given / not x '
-        'organization given / not x institution name given / not x department given / not, EVERY combination in every '
+        'requested procedures none / [] / several); doc_verify: {3 classes} x is_verified x observer name absent / empty '
+        'string / given x organization absent / empty string / given x institution name given / not x department given / not, EVERY combination in every '
         'run (in memory or written + srread), the remaining arguments random; in-memory, written+srread, from_dataset of '
         'every class on every class; malformed stream violates each guard once. segmentation references: synthetic '
         'segmentation datasets (1-6 frames, 1-3 segments, absent/empty/multiple derivation and source items, source '
@@ -326,8 +326,9 @@ def gen_doc_args(rng, ok=True):
     a = {
         'cls': rng.randrange(3), 'as_seq': rng.random() < 0.3, 'root_cs': True, 'ts': rng.choice(['explicit', 'implicit']),
         'complete': rng.random() < 0.5, 'final': rng.random() < 0.5, 'verified': ver,
-        'observer': rng.randint(1, 9) if (ver or rng.random() < 0.3) else None,
-        'org': rng.randint(1, 9) if (ver or rng.random() < 0.3) else None,
+        # 0 = the empty string (a verified document needs both details non-empty)
+        'observer': rng.randint(1, 9) if ver else (rng.randint(0, 9) if rng.random() < 0.3 else None),
+        'org': rng.randint(1, 9) if ver else (rng.randint(0, 9) if rng.random() < 0.3 else None),
         'record': rng.random() < 0.6,
         'previous': None if rng.random() < 0.5 else [
             [rng.randint(20, 24), 2, rng.randint(1, 2), rng.randint(1, 3)] for _ in range(rng.randint(0, 4))],
@@ -353,9 +354,9 @@ def gen_doc_verify(rng):
     unrelated optional arguments: one small valid document per combination"""
     out = []
     for cls in range(3):
-        for verified in (True, True, False):
-            for observer in (False, True):
-                for org in (False, True):
+        for verified in (True, False):
+            for observer in (None, 0, 1):            # absent, empty string, given
+                for org in (None, 0, 1):
                     for inst in (False, True):
                         for dept in (False, True):
                             if not verified and rng.random() < 0.5:
@@ -364,8 +365,8 @@ def gen_doc_verify(rng):
                             if cls != 2:
                                 strip_3d(c['tree'])
                             c.update(cls=cls, verified=verified, ts='explicit', as_seq=rng.random() < 0.2,
-                                     observer=rng.randint(1, 9) if observer else None,
-                                     org=rng.randint(1, 9) if org else None,
+                                     observer=rng.randint(1, 9) if observer else observer,
+                                     org=rng.randint(1, 9) if org else org,
                                      inst=rng.randint(1, 9) if inst else None,
                                      dept=rng.randint(1, 9) if dept else None,
                                      parse=rng.random() < 0.35)
@@ -411,9 +412,9 @@ def gen_doc_err(rng):
     elif g == 'bad_ts':
         c['ts'] = 'jpeg'
     elif g == 'no_observer':
-        c['verified'], c['observer'] = True, None
+        c['verified'], c['observer'] = True, rng.choice([None, None, 0])
     elif g == 'no_org':
-        c['verified'], c['org'] = True, None
+        c['verified'], c['org'] = True, rng.choice([None, None, 0])
     elif g == 'seq0':
         c['as_seq'], c['seq_n'] = True, 0
     elif g == 'seq2':
@@ -1082,9 +1083,9 @@ def make_doc(c):
     ev = [evidence_ds(r) for r in c['evidence']]
     kw = {}
     if c['observer'] is not None:
-        kw['verifying_observer_name'] = f"Doe^J{c['observer']}"
+        kw['verifying_observer_name'] = f"Doe^J{c['observer']}" if c['observer'] else ''
     if c['org'] is not None:
-        kw['verifying_organization'] = f"Org{c['org']}"
+        kw['verifying_organization'] = f"Org{c['org']}" if c['org'] else ''
     if c['previous'] is not None:
         kw['previous_versions'] = [plain_evidence(r) for r in c['previous']]
     if c['ts'] != 'explicit' or c['cls'] == 2:
@@ -1817,10 +1818,11 @@ def doc_expect_error(c):
         return 'no evidence'
     if c['ts'] == 'jpeg':
         return 'unsupported transfer syntax'
-    if c['verified'] and (c['observer'] is None or c['org'] is None):
-        return ('verified without verification details (observer name ' +
-                ('missing' if c['observer'] is None else 'given') + ', organization ' +
-                ('missing' if c['org'] is None else 'given') +
+    if c['verified'] and (not c['observer'] or not c['org']):
+        def how(v):
+            return 'missing' if v is None else ('empty' if v == 0 else 'given')
+        return ('verified without verification details (observer name ' + how(c['observer']) +
+                ', organization ' + how(c['org']) +
                 (f", institution name {c['inst']} given" if c.get('inst') is not None else '') + ')')
     if c['as_seq'] and c.get('seq_n', 1) != 1:
         return 'content sequence without exactly one item'
